@@ -82,23 +82,26 @@ def cmpPos (r : Res Int) : Res Bool :=
 def elemEq (env : Env) (E : Ty) : Val → Val → Res Bool :=
   if canEqual env E then fun a b => .ok (goEq a b) else Equal.top env E
 
-/-- min: `v < m` when the element type is a `*types.Basic`, else `deriveCompare(v, m) < 0` -/
-def minLt (env : Env) (E : Ty) : Val → Val → Res Bool :=
-  match E with
-  | .basic _ => goLt
-  | _ => fun a b => cmpNeg (Compare.top env E a b)
+/-- `isOrdered` of plugin/min and plugin/max: an unnamed basic type with `<` (not bool, not complex) -/
+def isOrderedBasic : Ty → Bool
+  | .basic .bool => false
+  | .basic (.complex _) => false
+  | .basic _ => true
+  | _ => false
 
-/-- max: `v > m` when the element type is a `*types.Basic`, else `deriveCompare(v, m) > 0` -/
+/-- min: `v < m` when the element type is an ordered `*types.Basic`, else `deriveCompare(v, m) < 0` -/
+def minLt (env : Env) (E : Ty) : Val → Val → Res Bool :=
+  if isOrderedBasic E then goLt else fun a b => cmpNeg (Compare.top env E a b)
+
+/-- max: `v > m` when the element type is an ordered `*types.Basic`, else `deriveCompare(v, m) > 0` -/
 def maxGt (env : Env) (E : Ty) : Val → Val → Res Bool :=
-  match E with
-  | .basic _ => fun a b => goLt b a
-  | _ => fun a b => cmpPos (Compare.top env E a b)
+  if isOrderedBasic E then fun a b => goLt b a else fun a b => cmpPos (Compare.top env E a b)
 
 /-- sort: the `less` function handed to `sort.*` (plugin/sort `printSortFunc`); `none` = unsupported -/
 def sortLess (env : Env) (E : Ty) : Option (Val → Val → Res Bool) :=
   match env.under E with
-  | .basic .bool => some fun a b => cmpNeg (Compare.top env (.basic .bool) a b)
-  | .basic (.complex w) => some fun a b => cmpNeg (Compare.top env (.basic (.complex w)) a b)
+  | .basic .bool => some fun a b => cmpNeg (Compare.top env E a b)
+  | .basic (.complex _) => some fun a b => cmpNeg (Compare.top env E a b)
   | .basic _ => some goLt
   | .ptr _ => some fun a b => cmpNeg (Compare.top env E a b)
   | .struct _ => some fun a b => cmpNeg (Compare.top env E a b)
@@ -286,8 +289,8 @@ def mapKeySet : Val → Option (Option (List Val))
   | .map _ es => some (some (mapKeys es))
   | _ => none
 
-/-- `for k := range that { union[k] = struct{}{} }; return union`: writes into the first map
-(assignment to an entry of a nil map panics); `π` is the iteration order over `that` -/
+/-- `for k := range that { union[k] = struct{}{} }` on the first map (assignment to an entry of a
+nil map panics) -/
 def unionMapLoop (union : Option (List Val)) : List Val → Res (Option (List Val))
   | [] => .ok union
   | k :: rest =>
@@ -295,8 +298,23 @@ def unionMapLoop (union : Option (List Val)) : List Val → Res (Option (List Va
     | none => .panic
     | some ks => unionMapLoop (some (setInsert k ks)) rest
 
-def unionMap (π : List Val → List Val) (union that : Option (List Val)) : Res (Option (List Val)) :=
-  unionMapLoop union (π (that.getD []))
+/-- deriveUnion on maps: `if union == nil && len(that) > 0 { union = make(…) }; for k := range that
+{ union[k] = struct{}{} }; return union`. Writes into the first map unless that is nil; `π` is the
+iteration order over `that`. Returns (result, first map as the caller sees it afterwards). -/
+def unionMap (π : List Val → List Val) (union that : Option (List Val)) :
+    Res (Option (List Val) × Option (List Val)) :=
+  let ks := that.getD []
+  match union with
+  | none =>
+    if ks.length > 0 then
+      match unionMapLoop (some []) (π ks) with
+      | .ok r => .ok (r, none)
+      | .panic => .panic
+    else .ok (none, none)
+  | some u =>
+    match unionMapLoop (some u) (π ks) with
+    | .ok r => .ok (r, r)
+    | .panic => .panic
 
 /-- `that[k]` lookup: `_, ok := that[k]` -/
 def hasKey (k : Val) (ks : List Val) : Bool := ks.any (fun k' => goEq k k')
